@@ -195,6 +195,8 @@ class Types:
             if cc is None:
                 return None
             return self._inst_iter(cc)
+        if t in self.enums or ("libcellml::" + t) in self.enums:
+            return "int"
         if t in self.aliases:
             return self._ctype(self.aliases[t])
         if t.startswith("libcellml::"):
@@ -348,6 +350,19 @@ class Unit:
             out.append(decl)
         for fname, ct in sorted(self.fields.items()):
             out.append("HEAP_FIELD(%s, %s)" % (ct, fname))
+        # every object field starts unconstrained in a modular harness: scalar fields are havocked
+        # wholesale; container fields get an arbitrary length and a NULL buffer (the contract's
+        # is_fresh clauses allocate the buffers that are used)
+        hv = ["static inline void havoc_heap(void)", "{", "#ifdef CBMC"]
+        for f in sorted(self.fields):
+            ct = self.fields[f]
+            if ct.startswith(("vvec_", "vmap_", "vset_")):
+                for k in range(1, 16):
+                    hv.append("#if HEAP_N > %d\n    %s[%d].n = nondet_size_t();\n#endif" % (k, f, k))
+            else:
+                hv.append("    __CPROVER_havoc_object(%s);" % f)
+        hv += ["#endif", "}"]
+        out.append("\n".join(hv))
         for g in self.globals_.values():
             out.append(g)
         for cn, p in sorted(self.protos.items()):
